@@ -517,6 +517,11 @@ func runC10(c *wk.Ctx) {
 	c.Floor("mutants", 5000)
 	c.Floor("mutants_accepted", 300)
 	c.Floor("operations_on_accepted", 20000)
+	if c.Mine(0) {
+		// loading a description must return: a valid acyclic chain of objects with two defaulted references each
+		c.Begin(0, "descriptions of chains of objects with two defaulted references each")
+		c04DefaultChains(c, "C10")
+	}
 	nDesc := c.N(24, 900)
 	const chunks = 8 // the mutants of one description are spread over several cases (and so over the workers)
 	c.Cases(nDesc*chunks, func(caseIdx int64, _ *wk.Rand) {
